@@ -5533,6 +5533,7 @@ class Entity(object, metaclass=EntityMeta):
                 for attr in attrs:
                     val = obj2._vals_[attr] if attr.reverse else None
                     if val is not None and val._status_ == 'created' and val not in objects: objects.append(val)
+            cache.query_results.clear()
             obj._save_()
         cache.call_after_save_hooks()
     def _before_save_(obj):
